@@ -277,7 +277,7 @@ def structural(tier, res):
 ORACLES = [
     {'name': 'generated budget directories: every file outside output/ hashed before and after `up`, `up -q`, `up --summary`, `explain`, `discover`, `diag`, `inspect`; '
              '`init` on a populated folder (LF and CRLF settings); `up --migrate`', 'script': 'C20.py',
-     'bound': '2 budgets (legacy CSV rules / .rules) x 9 command invocations; init on 3 pre-populated folders'},
+     'bound': '2 budgets (legacy CSV rules / .rules) x 9 command invocations; init on 5 pre-populated folders (incl. CSV next to a hand-written merchants.rules)'},
 ]
 TRUSTED_BASE = ['pyvc symbolic executor', 'static call graph with name-based resolution (pyvc/callgraph.py, conservative)', 'z3 5.1.0 / cvc5 1.0.3',
                 'ghost file system: exists() uninterpreted, paths are strings, os.path.join injective enough for the guards used (same term = same path)']
